@@ -583,7 +583,8 @@ func init() {
 					for _, h := range hostileValues {
 						yield(totCase{bi, "value", a.k, h})
 					}
-					for _, mk := range []string{a.k[:len(a.k)-1], a.k + "[0]", a.k + ".", a.k + "..", a.k + "!", "." + a.k, strings.ToUpper(a.k), strings.Replace(a.k, ".", "..", 1)} {
+					for _, mk := range []string{a.k[:len(a.k)-1], a.k + "[0]", a.k + ".", a.k + "..", a.k + "!", "." + a.k, strings.ToUpper(a.k), strings.Replace(a.k, ".", "..", 1),
+						a.k + "-", a.k + "_", a.k + "-_", "_" + a.k, "-" + a.k, strings.Replace(a.k, ".", "_.", 1), strings.Replace(a.k, ".", ".-", 1), a.k + ".x-", "-", "_", ""} {
 						yield(totCase{bi, "key", a.k, mk})
 					}
 					yield(totCase{bi, "key!expr", a.k, "T{a=1}"})
@@ -591,7 +592,7 @@ func init() {
 					// placeholders that lead to placeholders: itself, a cycle of two and of three, a chain ending in
 					// a missing key - whatever they resolve to, Refresh returns (a call that never returns is
 					// reported by the watchdog as call-blocked)
-					for _, cyc := range []string{"self", "two", "three", "chain-missing"} {
+					for _, cyc := range []string{"self", "two", "three", "chain-missing", "trailing-separator", "only-separators", "empty-name"} {
 						yield(totCase{bi, "placeholder", a.k, cyc})
 					}
 				}
@@ -623,6 +624,13 @@ func init() {
 					m["cycA"], m["cycB"], m["cycC"] = "${cyc-b}", "${cyc-c}", "${cycA}"
 				case "chain-missing":
 					m["cycA"], m["cycB"] = "${cyc-b}", "${cyc-nowhere}"
+				case "trailing-separator":
+					m[c.Key] = "${cyc-a_}"
+					m["cycA"] = "x"
+				case "only-separators":
+					m[c.Key] = "${-_-}"
+				case "empty-name":
+					m[c.Key] = "${}"
 				}
 			}
 			key := fmt.Sprintf("%s %s %s %q", b.name, c.Mut, c.Key, c.Val)
